@@ -250,7 +250,7 @@ end
 /-! ### the eleven serialisable types behind one interface -/
 
 /-- (to_value, from_value ∘ to-text) for a type tag -/
-def serOf (ty : String) (t : Tree) : Option (Res Json) :=
+def serOf (mask : Nat) (ty : String) (t : Tree) : Option (Res Json) :=
   match ty with
   | "str" => (optStrOf t).map fun s => .ok (optStrJ s)
   | "bs" => (optBytesOf t).map fun b => .ok (byteStringJ b)
@@ -258,11 +258,11 @@ def serOf (ty : String) (t : Tree) : Option (Res Json) :=
   | "dt" => (dtOf t).map fun d => .ok (.str (printDtMillis d))
   | "sc" => (natLeaf t).map fun c => .ok (natJ c)
   | "nid" => (nodeIdOf t).map fun n => .ok (nodeIdJ n)
-  | "xnid" => (expOf t).map fun e => .ok (expNodeIdJ e)
+  | "xnid" => (expOf t).map fun e => .ok (expNodeIdJ true e)
   | "qn" => (qnOf t).map fun q => .ok (qnameJ q)
   | "lt" => (ltOf t).map fun l => .ok (ltextJ l)
-  | "dv" => (dvalOf t).map dvalJ
-  | "var" => (varOf t).map varJ
+  | "dv" => (dvalOf t).map (dvalJ (current mask))
+  | "var" => (varOf t).map (varJ (current mask))
   | _ => none
 
 def fuelMax : Nat := 64
@@ -284,7 +284,7 @@ def deOf (mask : Nat) (ty : String) (j : Json) : Option String :=
   | "dt" => some (optRes dtOut (dtFromJ j))
   | "sc" => some (optRes toString (statusFromJ mask j))
   | "nid" => some (optRes nodeIdOut (nodeIdFromJ j))
-  | "xnid" => some (optRes expOut (expNodeIdFromJ j))
+  | "xnid" => some (optRes expOut (expNodeIdFromJ true j))
   | "qn" => some (optRes qnOut (qnameFromJ j))
   | "lt" => some (optRes ltOut (ltextFromJ j))
   | "dv" => some (resStr dvalOut (dvalFromJ (current mask) fuelMax j))
@@ -301,7 +301,7 @@ def dstep (s : DState) (toks : List String) : DState × String :=
     | some m => ({ mask := m }, "ok")
     | none => (s, "bad-op")
   | ["rt", ty, v] =>
-    (s, match (treeOf v).bind (serOf ty) with
+    (s, match (treeOf v).bind (serOf s.mask ty) with
       | none => "bad-op"
       | some .panic => "panic"
       | some .err => "err"
